@@ -17,7 +17,7 @@ CHECKS = {
               'against the MTProto-1.0 KDF; wrap (payload, new_nonce, server_nonce incl. leading zero bytes) for the key-exchange '
               'wrapper against a conformant peer. Non-trivial: raw input of >=3 blocks, msg of >=1 byte, every wrap case; '
               'distinct by hash of (kind,key,iv,data,nonces).'),
-        must_hit=['raw:blocks>=3', 'raw:refused-length', 'wrap:(20+len)%16=0', 'wrap:nonce-objects-reused-in-place', 'large-inputs>=2^12-blocks', 'wrap:new_nonce-leading-zero-bytes=1',
+        must_hit=['wrap:nonce-is-zero', 'raw:blocks>=3', 'raw:refused-length', 'wrap:(20+len)%16=0', 'wrap:nonce-objects-reused-in-place', 'large-inputs>=2^12-blocks', 'wrap:new_nonce-leading-zero-bytes=1',
                   'wrap:server_nonce-leading-zero-bytes=1', 'msg:len%16=0', 'msg:len%16=15', 'concurrent:raw', 'concurrent:msg', 'concurrent:wrap'],
         assumptions=['crypto/aes single-block operations and crypto/sha1 of the Go standard library are correct',
                      'out-of-place use only (no caller of the cipher encrypts in place)',
@@ -84,7 +84,7 @@ CHECKS = {
         rule=('cases = (code int32, text) with text from: table row x parameter {int64 range, negative, 0, huge, empty, abc, 1e3, arabic digit, spaces, +5, 0x10, %d}, '
               'all catalogued names, near misses of rows, mutated names, arbitrary strings with % verbs. Non-trivial: text non-empty and one of '
               '{row match, known name, unknown text}; distinct by hash of (code,text).'),
-        must_hit=['client:migrate-while-session-storage-fails', 'client:other-migrate-error-naming-a-configured-data-centre', 'concurrent:evaluations', 'row:param-int', 'row:param-absent', 'row:param-non-numeric', 'row:param-out-of-range', 'row:param-negative', 'known-name',
+        must_hit=['client:migrate-while-session-storage-fails', 'client:rpc_error-inside-gzip_packed', 'client:other-migrate-error-naming-a-configured-data-centre', 'concurrent:evaluations', 'row:param-int', 'row:param-absent', 'row:param-non-numeric', 'row:param-out-of-range', 'row:param-negative', 'known-name',
                   'unknown-text', 'unknown-text-with-percent', 'client:errors', 'client:migrate', 'client:migrate-unconfigured', 'client:data-centre-known-to-another-client-only'] + ['row%02d' % i for i in range(15)],
         assumptions=['for a matching row whose parameter is not a decimal int the statement fixes only: no panic, Code kept; Message may be the text or the X form (accepted either way), "+5" likewise',
                      'the catalogue of documented descriptions is read from errors.go as data'],
@@ -119,7 +119,7 @@ CHECKS = {
               'filesystems), loadA, loadFresh, remove, tear (every prefix of the file)} on {absolute, relative, bare-file-name} paths; sessions with keys/hashes of '
               '0..300 arbitrary bytes, salts over all int64 classes, host names of arbitrary valid UTF-8 incl. JSON metacharacters. Non-trivial: a load after a '
               'second store, a torn file, a non-ASCII or metacharacter host, or a negative salt; distinct by hash of the history.'),
-        must_hit=['concurrent-stores', 'load-store-race', 'op:tear', 'torn-file', 'load-after-second-store', 'load-after-same-tick-store', 'load-missing', 'path:bare', 'path:relative', 'path:absolute',
+        must_hit=['resume:configured-via:both-absent', 'resume:configured-via:both-other', 'resume:configured-via:storage', 'concurrent-stores', 'load-store-race', 'op:tear', 'torn-file', 'load-after-second-store', 'load-after-same-tick-store', 'load-missing', 'path:bare', 'path:relative', 'path:absolute',
                   'host-non-ascii', 'host-json-metachar', 'salt-negative', 'op:remove', 'op:storeFresh', 'op:loadFresh', 'store-of-an-earlier-value', 'resume', 'resume-verdict:ok'],
         assumptions=['host names are valid UTF-8 (JSON cannot carry other byte strings)', 'the directory of the path exists',
                      'a crash during writing leaves a prefix of the new content (os.WriteFile truncates, then writes)',
@@ -138,7 +138,7 @@ CHECKS = {
         rule=('format case = (mode, 1..8 message lengths from {0,4,..,around 127 words,..,2^16 (2^20 thorough)}); tcp case = (mode, 0..5 plain packets, optional 4-byte '
               'error frame with signed code, close at boundary/mid-message/none, composition of TCP write sizes, 0..3 messages written back); detect case = first '
               'bytes. Non-trivial: >=2 messages, a message of >=127 words, a cut inside a header, >=2 messages in one segment, or >8 segments; distinct by hash of the case.'),
-        must_hit=['client-writes-after-quiet-period>timeout', 'client-writes-after-a-refused-write', 'kind:format', 'kind:tcp', 'kind:detect', 'abridged', 'intermediate', 'msg>=127words', 'msg>=2^16words', 'client-closes-right-after-writing', 'msg-at-127-word-switch', 'cut-inside-header',
+        must_hit=['client-writes-after-quiet-period>timeout', 'msg>=2^24bytes', 'client-writes-after-a-refused-write', 'kind:format', 'kind:tcp', 'kind:detect', 'abridged', 'intermediate', 'msg>=127words', 'msg>=2^16words', 'client-closes-right-after-writing', 'msg-at-127-word-switch', 'cut-inside-header',
                   'error-frame-negative', 'close:boundary', 'close:mid', 'client-writes', 'many-segments', 'msg-empty'],
         assumptions=['the kernel may coalesce separately written segments: that only weakens a case, it never falsifies one',
                      'message lengths are multiples of 4 (every MTProto packet is)', 'in-memory pipe honours the exact-count read contract that tcpConn.Read provides'],
@@ -155,7 +155,7 @@ CHECKS = {
         rule=('value = registered Go type x recorded builder choices (depth <= 3 quick / 6 thorough). Non-trivial: contains a multi-field group in present-mixed state, '
               'a boundary-length string (252..257, 65535..65536, 2^24-1), nesting depth >= 2, a vector of >= 2 elements, a 128/256-bit integer with a leading zero '
               'byte, or a non-finite/negative-zero double; distinct by hash of (type, choices).'),
-        must_hit=['concurrent:evaluations', 'first-use-concurrent', 'feat:vector>=999', 'feat:group-present-mixed', 'feat:str-len-252..257', 'feat:vector>=2', 'feat:depth>=2', 'feat:int128/256-leading-zero', 'feat:double-nonfinite-or-negzero',
+        must_hit=['feat:gzip_packed-around-2^24-bytes', 'concurrent:evaluations', 'first-use-concurrent', 'feat:vector>=999', 'feat:group-present-mixed', 'feat:str-len-252..257', 'feat:vector>=2', 'feat:depth>=2', 'feat:int128/256-leading-zero', 'feat:double-nonfinite-or-negzero',
                   'feat:enum-member', 'feat:message-container', 'top-level-enum', 'feat:str-len%4=0', 'feat:str-len%4=1', 'feat:str-len%4=2', 'feat:str-len%4=3'],
         fold={'ctor:': ('constructors_covered', 1220), 'group:': ('flag_group_states_covered', 60)},
         assumptions=['values are canonical TL values: mandatory object fields non-nil, object/enum members of a present group non-nil, true-typed members equal the presence of their group',
@@ -177,7 +177,7 @@ CHECKS = {
         rule=('one case per schema definition in scope and one per registered constructor id; the whole finite set is enumerated on every run (no sampling). Non-trivial: the '
               'definition has at least one parameter / the id is registered; distinct by definition name.'),
         programs_class='programs',
-        must_hit=['zero-valued-scalar-arguments', 'same-method-from-4-goroutines-at-once', 'kind:function', 'kind:constructor', 'kind:enum-member', 'dormant-definition', 'hand-written-wrapper', 'has-conditional-fields', 'file:mtproto.tl', 'registered-id', 'method-call', 'second-call-on-the-same-client', 'result-kind:Bool', 'result-kind:vector', 'result-kind:object', 'args:positional'],
+        must_hit=['zero-valued-scalar-arguments', 'exported-constant', 'same-method-from-4-goroutines-at-once', 'kind:function', 'kind:constructor', 'kind:enum-member', 'dormant-definition', 'hand-written-wrapper', 'has-conditional-fields', 'file:mtproto.tl', 'registered-id', 'method-call', 'second-call-on-the-same-client', 'result-kind:Bool', 'result-kind:vector', 'result-kind:object', 'args:positional'],
         assumptions=['the five commented-out header lines of api_121.tl ("these items exist in tl schema") count as definitions of the schema file; their ids are compared as written, the CRC-32 rule is not applied to them',
                      'msg_container and gzip_packed have hand-written (un)marshalers: only their ids are compared here, their wire behaviour in C02',
                      'invokeAfterMsg(s), invokeWithoutUpdates, invokeWithMessagesRange are documented as not implemented and are reported, not flagged'],
@@ -193,7 +193,7 @@ CHECKS = {
         technique='schema-directed differential testing against an independent TL codec (rapid + exhaustive flag-pattern enumeration)',
         rule=('case = (definition, builder choices, forced flag pattern / string length). Non-trivial: the definition has >= 1 parameter and the value exercises a set flag bit, '
               'a string of >= 254 bytes, a vector of >= 2 elements or a nested object; distinct by hash of (definition, choices).'),
-        must_hit=['concurrent:evaluations', 'feat:one-object-in-two-places', 'feat:packed-data>=2^24', 'feat:flag-bit-set', 'feat:string>=254', 'feat:vector>=2', 'feat:nested-object', 'feat:len-252..257', 'feat:len-0..5', 'feat:len-16777215', 'feat:len-16777216',
+        must_hit=['feat:vector-of-1200-objects', 'concurrent:evaluations', 'feat:one-object-in-two-places', 'feat:packed-data>=2^24', 'feat:flag-bit-set', 'feat:string>=254', 'feat:vector>=2', 'feat:nested-object', 'feat:len-252..257', 'feat:len-0..5', 'feat:len-16777215', 'feat:len-16777216',
                   'direction:encode', 'direction:decode', 'def:special:container', 'def:special:gzip', 'def:special:vector'],
         fold={'def:': ('definitions_covered', 1225)},
         assumptions=['present groups have at least one non-zero member (a present group of only zero scalars cannot be expressed as a Go value: the library defines presence by non-zero members)',
@@ -235,7 +235,7 @@ CHECKS = {
               'at any position, conditional parameters on bits 0..31 incl. shared bits and true, vectors of every element kind, recursive types, 0..4 functions returning '
               'objects, enums, Bool and vectors, @type/@constructor/@enum/@method/@param annotations with arbitrary text, parameter names incl. keywords/errors/c). '
               'Non-trivial: the schema has a shared bit, a flags word that is not first, a constructor named like its type, a namespace or a vector result; distinct by hash of the text.'),
-        must_hit=['feat:shared-bit', 'feat:flags-not-first', 'feat:constructor-named-like-type', 'feat:namespace', 'feat:enum-type', 'feat:single-constructor-type', 'feat:multi-constructor-type',
+        must_hit=['feat:line>=64KiB', 'feat:shared-bit', 'feat:flags-not-first', 'feat:constructor-named-like-type', 'feat:namespace', 'feat:enum-type', 'feat:single-constructor-type', 'feat:multi-constructor-type',
                   'feat:function-returning-Bool', 'feat:function-returning-vector', 'feat:function-returning-object', 'feat:function-returning-enum', 'feat:vector-parameter',
                   'feat:object-typed-parameter', 'shipped:api_latest.tl', 'shipped:parser-totality', 'compiled-packages'],
         assumptions=['identifiers are snake_case words of letters and digits without empty segments (as in every shipped schema)',
@@ -255,7 +255,7 @@ CHECKS = {
         technique='scenario-based property testing (rapid) against a reference MTProto server with search-forced numeric corners',
         rule=('case = key-exchange scenario (RSA key, server_nonce, p<q primes, pq padding, g, server secret a, padding seed, optionally injected client nonce/new_nonce/b). '
               'Every completed run is non-trivial; classes record which field the server actually saw starting with zero bytes; distinct by hash of the scenario.'),
-        must_hit=['reply-in-two-tcp-segments', 'second-attempt-after-refused-connection', 'fingerprints:known-key-first', 'fingerprints:known-key-last', 'fingerprints:known-key-in-the-middle', 'corner:nonce', 'corner:server_nonce', 'corner:new_nonce', 'corner:new_nonce_hash1', 'corner:rsa_ciphertext', 'corner:g_a', 'corner:g_b', 'corner:g_ab',
+        must_hit=['server-clock-after-2038', 'reply-in-two-tcp-segments', 'second-attempt-after-refused-connection', 'fingerprints:known-key-first', 'fingerprints:known-key-last', 'fingerprints:known-key-in-the-middle', 'corner:nonce', 'corner:server_nonce', 'corner:new_nonce', 'corner:new_nonce_hash1', 'corner:rsa_ciphertext', 'corner:g_a', 'corner:g_b', 'corner:g_ab',
                   'draws:client-own', 'draws:injected', 'pq:above-2^63', 'pq:small', 'verdict:ok'],
         assumptions=['the reference server is conformant: it follows core.telegram.org/mtproto/auth_key with fixed-width values (self-consistent: it completes with the fixed client)',
                      'DH group = Telegram\'s 2048-bit safe prime', 'a connect that the server side had to abandon (recorded reason) is judged by that reason, never by elapsed time'],
@@ -292,7 +292,7 @@ CHECKS = {
         technique='metamorphic reseeding and clock-window seed recovery over generated seeds (rapid); falsification of unpredictability, not proof of provenance',
         rule=('case = (kind in {reseed-nonces, reseed-exchange, reseed-srp, clock-nonce, clock-exponent, reseed-exponent-params}, seed value, g, password, dh_prime, g_a). Every case is non-trivial; distinct by hash of the case. '
               'coverage.classes["seed-candidates-tried"] counts the candidate seeds replayed.'),
-        must_hit=['kind:retry-exponents', 'kind:reseed-nonces', 'kind:clock-nonce', 'kind:clock-exponent', 'kind:reseed-srp', 'kind:reseed-exponent-params', 'small-group', 'kind:srp-distinct', 'secure_random_len=1', 'kind:stalled-os-source', 'stall=300ms', 'kind:many-draws', 'kind:short-os-source', 'seed-candidates-tried'],
+        must_hit=['kind:retry-exponents', 'kind:second-exchange', 'kind:reseed-nonces', 'kind:clock-nonce', 'kind:clock-exponent', 'kind:reseed-srp', 'kind:reseed-exponent-params', 'small-group', 'kind:srp-distinct', 'secure_random_len=1', 'kind:stalled-os-source', 'stall=300ms', 'kind:many-draws', 'kind:short-os-source', 'seed-candidates-tried'],
         assumptions=['the statement quantifies over code paths; this check executes the (straight-line) paths under generated environments and can only refute unpredictability',
                      'the exponent\'s seed, if clock-derived, is read within 300 us of entering MakeGAB (it is needed before the exponentiations that dominate the call)'],
     ),
@@ -307,7 +307,7 @@ CHECKS = {
         technique='scenario-based property testing (rapid) with tagged requests against a scripted reference server; directed yield-point schedules',
         rule=('case = rpc scenario on a resumed session: callers x tagged requests, answer order/grouping/gzip/errors, optional hold of one sender until another request arrived, GOMAXPROCS. '
               'Non-trivial: >=2 requests answered out of order, a container, a gzip-packed result or a vector result; distinct by hash of the scenario.'),
-        must_hit=['feat:gzip:flushed-in-between', 'feat:gzip:stored', 'feat:big-result', 'feat:big-result:gzip', 'session:keyed-in-this-process', 'feat:answered-out-of-order', 'feat:container', 'feat:gzip', 'feat:rpc-error', 'concurrent-callers', 'directed:answer-while-sender-in-send-path', 'feat:nested-container', 'feat:answers-to-requests-resent-after-salt-rotation', 'feat:repeated-result', 'feat:repeated-result-before-others-in-container', 'server-history:answers-after-reconnect', 'verdict:ok'] +
+        must_hit=['server-clock-after-2038', 'feat:gzip:flushed-in-between', 'feat:gzip:stored', 'feat:big-result', 'feat:big-result:gzip', 'feat:result-longer-than-1MiB', 'feat:older-msg_id-arrives-after-newer', 'session:keyed-in-this-process', 'feat:answered-out-of-order', 'feat:container', 'feat:gzip', 'feat:rpc-error', 'concurrent-callers', 'directed:answer-while-sender-in-send-path', 'feat:nested-container', 'feat:answers-to-requests-resent-after-salt-rotation', 'feat:repeated-result', 'feat:repeated-result-before-others-in-container', 'server-history:answers-after-reconnect', 'verdict:ok'] +
                  ['feat:%s:%s' % (k, f) for k in ('object', 'bool', 'vecint', 'veclong', 'vecobj') for f in ('plain', 'container', 'gzip')],
         assumptions=['requests are made through MakeRequest / MakeRequestWithHintToDecoder with the hint the generated method of that function passes, followed by the same type assertion',
                      'a stall verdict needs a quiescent deadlocked state seen in two goroutine dumps; anything else after the patience is inconclusive',
@@ -326,7 +326,7 @@ CHECKS = {
         rule=('case = rpc scenario (callers, answer schedule, interleaved server pushes, optional hold at send.msgid, GOMAXPROCS). Non-trivial: the received stream has two '
               'adjacent requests or an acknowledgement interleaved with requests; distinct by hash of the scenario.'),
         must_hit=['feat:adjacent-requests', 'feat:ack-interleaved-with-requests', 'feat:content-related-in-container', 'directed:hold-after-msgid', 'msgid-generator', 'server-history:clock-skew-notification', 'client-ping', 'server-history:repeated-result', 'server-history:content-related-push',
-                  'server-history:service-push', 'server-history:close-and-reconnect', 'feat:stream-continues-after-reconnect', 'concurrent-callers', 'server-history:seq_no-passes-2^31', 'server-history:redelivery-after-the-acknowledgement', 'verdict:ok'],
+                  'server-history:service-push', 'server-history:close-and-reconnect', 'feat:stream-continues-after-reconnect', 'concurrent-callers', 'server-history:seq_no-passes-2^31', 'server-history:redelivery-after-the-acknowledgement', 'server-clock-after-2038', 'server-history:message-longer-than-1MiB', 'verdict:ok'],
         assumptions=['seq_no: the statement demands parity and monotonicity, not the exact value 2*count',
                      'no clock hook: equal clock readings for two messages are unreachable here (a write system call separates two reads under the send lock)',
                      'a missing acknowledgement is a violation only when the client is quiescent (receive loop idle in two goroutine dumps)'],
@@ -343,7 +343,7 @@ CHECKS = {
         technique='history enumeration (small) + generation (rapid) of salt-rotation scenarios against a reference server; state inspection for stalls',
         rule=('case = plan (fresh|resumed; per rotation: accepted-before, rejected-by, answered-now counts, announcement kind, answer order). Non-trivial: at least one rotation with '
               'a pending request; distinct by hash of the script.'),
-        must_hit=['same-request-rejected>=4-times-in-a-row', 'session:resumed-stored-without-key-id', 'fresh-keyed+rotation', 'second-rotation', 'rejected-message-is-an-ack', 'salt-notifications-in-a-burst', 'store-fails-once-then-same-salt-again', 'accepted+rejected-mixed', 'pending-across-two-rotations', 'rotation-with-nothing-pending', 'salt-by-new_session_created',
+        must_hit=['server-clock-after-2038', 'same-request-rejected>=4-times-in-a-row', 'session:resumed-stored-without-key-id', 'fresh-keyed+rotation', 'second-rotation', 'rejected-message-is-an-ack', 'salt-notifications-in-a-burst', 'store-fails-once-then-same-salt-again', 'accepted+rejected-mixed', 'pending-across-two-rotations', 'rotation-with-nothing-pending', 'salt-by-new_session_created',
                   'session:resumed', 'verdict:ok'],
         assumptions=['acknowledgements that the server rejects for their stale salt are not "requests": only tagged RPC requests are counted',
                      'the hook after an adoption fires after the salt was assigned and saved, so a concurrently written message may already carry it: a newer salt is never blamed',
@@ -361,7 +361,7 @@ CHECKS = {
                     'kind is also run alone in four wrappings.'),
         technique='history generation (rapid) + per-event enumeration against a scripted reference server with a live client per case; state inspection for a stopped loop',
         rule=('case = list of server events with wrapping flags; after each a probe. Non-trivial: at least one event other than pong/ack; distinct by hash of the event list.'),
-        must_hit=['event:>=6-connections-closed-in-a-row'] + ['event:' + k for k in ('pong', 'ack', 'new-session', 'bad-msg', 'state-info', 'all-info', 'detailed-info', 'new-detailed-info', 'future-salts', 'result-unknown',
+        must_hit=['event:>=6-connections-closed-in-a-row', 'server-clock-after-2038'] + ['event:' + k for k in ('pong', 'ack', 'new-session', 'bad-msg', 'state-info', 'all-info', 'detailed-info', 'new-detailed-info', 'future-salts', 'result-unknown',
                   'result-again', 'error-unknown', 'update', 'updates-too-long', 'unknown-ctor', 'truncated', 'empty-body', 'empty-container', 'nested-container', 'raw-soup', 'gzip-damaged', 'close', 'bad-salt-unknown', 'bad-salt-answered', 'rotate')] + ['schema-object:mtproto.tl', 'schema-object:api_latest.tl', 'event-frame-in-two-tcp-segments', 'event:envelope:badlen', 'event:envelope:evenid', 'event:envelope:flip', 'event:envelope:truncate'] +
                  ['event-gzip-packed', 'event-in-container', 'handler-called', 'warning-surfaced', 'verdict:ok'],
         assumptions=['"reconnects" is judged by state: the listener keeps accepting, and a client that has not opened a new connection 3 s after a close while its receive loop sits idle counts as not reconnecting (also after the 8th close in a row)',
